@@ -20,8 +20,8 @@ Armed for the two conversion points on the read path: EventBuilder::add_payload_
 (h) bit addressing: every null / value bitmap access in the column layer has the shape `bytes[a / 8] (&|) (1 << (b % 8))`; the byte index and the bit index must be taken from the same row index
 (a and b are copies of one variable) - all writers and readers in engine::core::{column, write} are compared; `bytes[(i - start) / 8] & (1 << (i % 8))` reads another row's bit.
 """
-FLOOR = 11
-REQUIRED = ["C07.a1", "C07.a2", "C07.b", "C07.c", "C07.d", "C07.e", "C07.f", "C07.g", "C07.h", "C07.i", "C07.j"]
+FLOOR = 12
+REQUIRED = ["C07.a1", "C07.a2", "C07.b", "C07.c", "C07.d", "C07.e", "C07.f", "C07.g", "C07.h", "C07.i", "C07.j", "C07.k"]
 
 NUM = {"I64", "U64", "F64", "Bool"}
 
@@ -556,3 +556,37 @@ def run(ctx):
                 bad.append(("zone-fields-not-from-this-zone", "the payload keys WriteJob::build collects do not come from the events of the zone plan being written", sp(b, c.bb)))
         return bad
     ctx.run("C07.j", "K9 LOOP + K7", "WriteJob::build", "a zone's column set is collected from its own events", j_)
+
+    def k_(inst):
+        """`nulls in optional fields ... returned equal to what was stored`. A column block is built from the string each cell was turned
+        into. For the typed lanes an unparsable (empty) cell becomes a bit in the null bitmap; the VarBytes lane has no bitmap (its aux
+        area is exactly one length per row). ColumnGroupBuilder::add turns ScalarValue::Null into the empty string, so in a string
+        column a null and an empty string are the same cell."""
+        bad = []
+        b = F.fn("ColumnGroupBuilder::add")
+        sw = enum_switches_on(b, lambda L: has_origin(L, "param", "job", proj_contains=[".value"]), r"ScalarValue$")
+        if not sw:
+            raise AnchorMissing("match on job.value in ColumnGroupBuilder::add")
+        a = arms(b, sw[0][0])
+        null_calls = sorted({c.nname.split("::")[-2] + "::" + c.nname.split("::")[-1] for c in b.calls if not c.cleanup and c.bb in a.get("Null", set())})
+        fin = F.fn("ColumnGroupBuilder::finish")
+        swp = [(i_, si) for i_, si in enum_switches_on(fin, lambda L: True, r"PhysicalType$")]
+        var_has_bitmap = None
+        if swp:
+            ar = arms(fin, swp[0][0])
+            vb = ar.get("VarBytes", set())
+            others = set().union(*[v for k_, v in ar.items() if k_ not in ("VarBytes", "else")]) if ar else set()
+            # does the VarBytes arm build a null bitmap like the typed arms (a byte vector sized (rows + 7) / 8)?
+            def has_bitmap(blocks):
+                for x in blocks:
+                    for st in fin.blocks[x]["s"]:
+                        v = st.get("v")
+                        if v and v.get("r") == "bin" and v.get("op") in ("Div", "Shr") and "k" in v.get("b", {}) and re.match(r"^(8|3)_", str(v["b"]["k"])):
+                            return True
+                return False
+            var_has_bitmap = has_bitmap(vb - others)
+        inst.sites.append("Null arm of add: %s; VarBytes block has a null bitmap: %s" % (null_calls, var_has_bitmap))
+        if any(x.endswith("String::new") for x in null_calls) and not var_has_bitmap:
+            bad.append(("null-string-written-as-empty", "ColumnGroupBuilder::add writes ScalarValue::Null as the empty string and the VarBytes block has no null bitmap: a null in an optional string field comes back as \"\" after FLUSH", sp(b, sw[0][0])))
+        return bad
+    ctx.run("C07.k", "K10 READS", "ColumnGroupBuilder::add / finish (VarBytes lane)", "a null string cell is distinguishable from an empty string on disk", k_)
